@@ -159,8 +159,10 @@ func runC11G(r *explore.Run) {
 				continue
 			}
 			nHosts++
+			// position of the statement in its list: statement-hole forms take all three positions; the
+			// others rotate over (form, context) in the quick tier and take all three at depth 1 in thorough
 			var poss []int32
-			if thorough || f.Kind == 's' {
+			if f.Kind == 's' || (thorough && c.Depth == 1) {
 				poss = []int32{0, 1, 2}
 			} else {
 				poss = []int32{int32((2*fi + ci) % 3)}
@@ -175,7 +177,7 @@ func runC11G(r *explore.Run) {
 						if !wgen.C11Applicable(f, g, fnk) {
 							continue
 						}
-						if g.Light && !thorough && (fi+ci)%3 != 0 {
+						if g.Light && (c.Depth == 3 || (!thorough && (fi+ci)%3 != 0)) {
 							continue
 						}
 						nord := 1
